@@ -177,3 +177,27 @@ Lemma lgrant_le x o l : lrate x l <> 0 ->
   lgrant l x o <= match o with OTick dt => (now x + dt - last_tick x) * lrate x l / 1000000 | _ => 0 end.
 Proof. intros Hr. destruct o; cbn [lgrant]; try lia. apply tick_grant. exact Hr. Qed.
 
+
+(* non-vacuity: a limited root with a 5000 B/s slave, four ticks, then demand on the slave list *)
+Definition ex_pre : list op := [OSetRate 0 10000; OSlave; OSetRate 1 5000].
+Definition ex_ops : list op :=
+  [OInsert 1 0; OTick 1000000; OTick 1000000; OTick 1000000; OTick 1000000; OConsume 1 0 3000; OSetRate 0 20000; OTick 1000000].
+Example ex_per_list :
+  sinv (final init ex_pre) /\ valid_opsb (final init ex_pre) ex_ops = true /\ stable_opsb (final init ex_pre) ex_ops = true /\
+  match get_tl (final init ex_pre) 1 with Some _ => True | None => False end /\
+  ltotals 1 (final init ex_pre) ex_ops = (3000, 25000).
+Proof.
+  split; [destruct (hierarchy_run ex_pre init sinv_init) as (_ & _ & H & _); [vm_compute; reflexivity|exact H]|].
+  split; [vm_compute; reflexivity|]. split; [vm_compute; reflexivity|]. split; [vm_compute; exact I|vm_compute; reflexivity].
+Qed.
+
+(* Rate only matters to the property through (a) Rate::insert's range check (ProofsH) and (b) the
+   tick spacing: calculate_interval never asks for less than 100 ms, so the scheduler-driven tick
+   (wait_for_ceil_seconds of it) can never hit receive_tick's 90 ms "too short interval" throw, and
+   never for more than one second, so the quota of one tick stays one-to-two seconds' worth. *)
+Lemma calc_interval_bounds t s : 100000 <= calc_interval t s <= 1000000.
+Proof.
+  unfold calc_interval. destruct (_ <? 1024); [lia|].
+  set (iv := (5 * maxc t) mod w32 / (rate_value (rslow t) s mod w32)).
+  destruct (N.eqb_spec iv 0); [lia|]. destruct (N.ltb_spec 10 iv); lia.
+Qed.
